@@ -36,7 +36,9 @@ CHECKS = {
         text='Bounded solver verdict on the real Jacobian / Gradient / directionaldiff executed on affine maps with symbolic '
              'coefficient tensors: for ALL coefficients the result has shape (m,n) / (m,n,k) with entry [i,j] / [i,j,l] equal to the '
              'coefficient at the same index (a swapped axis is a counterexample because A is not symmetric); Gradient has shape (n,) '
-             '(0-d for n=1) and equals the single Jacobian row; directionaldiff equals c.v/|v|; size mismatch raises ValueError. '
+             '(0-d for n=1; (x.size,) for x with several axes) and equals the single Jacobian row; directionaldiff equals c.v/|v| with |v| '
+             'the Euclidean length of the elements, for x and v of any shape with equal size (matrix-shaped v of rank 2 included); size '
+             'mismatch raises ValueError. '
              'Driven end to end (short step sequence) and at row level with the default generators. n<=3, m<=3, k<=2 (4,4,3 thorough).',
         note='Trusted: z3 (QF_LRA); exact arithmetic; affine maps only (accuracy on nonlinear maps is outside the claim).',
         technique=TECH + ' (QF_LRA)',
@@ -93,7 +95,8 @@ CHECKS = {
              'evaluation i in row i and element j in column j; end-to-end Derivative on x with 0..3 axes and per-element symbolic '
              'coefficients (C and Fortran memory order): shape preserved, entry idx depends only on element idx and equals the '
              'scalar run; tables with all-NaN columns: the other columns are unaffected and the NaN column returns NaN; '
-             '*args/**kwds forwarded on every call.',
+             '*args/**kwds forwarded on every call; one object called twice at the same point with other positional / keyword '
+             'arguments: the second result is a term over the second arguments only and equals a fresh object\'s.',
         note='Trusted: z3 for path feasibility; exact arithmetic. Bit-identity in float64 follows only under the stated '
              'assumption that numpy elementwise kernels are position-independent. Bounds: <= 7 rows, <= 4 columns in the forking unit.',
         technique=TECH + '; non-interference by self-composition over solver-validated paths',
@@ -104,7 +107,7 @@ CHECKS = {
              '- warm rule == cold rule on every feasible path; step generator run from an arbitrary symbolic remembered state - '
              'output and branch decisions contain no pre-state symbol; Derivative setter round trips with symbolic intermediate '
              'values - configuration digest equals a fresh object; reuse sequences (other point, shared generator, n changed and '
-             'restored, method switched) for Derivative and for Jacobian / Gradient / Hessian / Hessdiag / Limit - value, error '
+             'restored, n=0 / n=3 / another order called in between, method switched) for Derivative and for Jacobian / Gradient / Hessian / Hessdiag / Limit - value, error '
              'estimate and final step are the same terms as a fresh object\'s; a generator run after a REAL earlier call with '
              'another (n, order) equals a fresh generator\'s run; CStepGenerator likewise.',
         note='Trusted: z3; cache entries are modelled as functions of the arguments passed to _fd_matrix (token stub); '
@@ -130,7 +133,8 @@ CHECKS = {
              'imaginary value, for n = 1..4 (as far as the method admits) and with full_output on and off; all paths explored (z3 '
              'feasibility); every feasible path raises ValueError, a returning path is the counterexample. Integer / string guards (multicomplex n>2, Residue order<=pole_order, unknown Limit path) confirmed by '
              'CrossHair for unbounded values; length guards (fd_weights_all, fd_derivative, directionaldiff, too few steps, '
-             'wrong-size function output) over every length within the bound.',
+             'wrong-size function output) by running the real guards for every length within the bound, with 1-3 columns and for '
+             'Derivative / Gradient / Jacobian / Hessdiag (concrete enumeration of sizes, not a solver verdict).',
         note='Trusted: z3, CrossHair; numpy.iscomplex semantics (imaginary part non-zero); dimension <= 3, lengths <= 8.',
         technique=TECH + '; CrossHair for integer/string guards',
         design='3/C11'),
@@ -140,16 +144,20 @@ CHECKS = {
              'e2 f(z1+iz2) for all component values (polynomial / rational identities); exp sin cos sinh cosh expm1 equal the '
              'decomposition oracle as consequences of the addition theorems (complex functions uninterpreted, axioms applied as '
              'oriented rewrites, identities decided by z3); log1p is consistent with the library log of 1+zeta; reduction on z2=0; '
-             'exp(log(zeta)) == zeta on the slice z2=0 (branch logic of _arg_c). log in general, sqrt, non-integer powers, division, '
-             'tan family and all inverse functions are NOT covered.',
-        note='Trusted: z3 arithmetic normaliser and nlsat; the listed addition-theorem axioms; counterexamples are confirmed '
-             'numerically against numpy complex functions at random points.',
+             'exp(log(zeta)) == zeta on the slice z2=0 (branch logic of _arg_c); in the principal region (Re z1 > 0, other components '
+             '<= Re z1/4; mirrored for divisors) log log2 log10 exp2 sqrt, real powers, reciprocal and division equal the oracle on '
+             'every path of the real code from the principal-branch identities, and tan cot sec csc tanh coth sech csch are term for '
+             'term the library quotient of proven functions. Inverse functions, bicomplex exponents, logaddexp and everything '
+             'outside the principal region are NOT covered.',
+        note='Trusted: z3 arithmetic normaliser and nlsat; the listed addition-theorem and principal-branch identities (axioms, valid in '
+             'the stated region) and definitions (w^p := exp(p log w), 1/w := exp(-log w)); counterexamples are confirmed numerically '
+             'against numpy complex functions at random points of the region.',
         technique=TECH + ' (QF_UFNRA with instantiated addition-theorem axioms)',
         design='3/C12'),
     'C13': dict(
         text='Bounded solver verdict on the real dea3 executed on symbolic arrays: for ALL real inputs abserr>=0 and '
              'abserr>=|result-v2| (hence honest against any X the inputs are within t of), element independence, inputs '
-             'unmodified, symmetric=True only trims; the documented guards, restated from the inputs, decide between Shanks value '
+             'unmodified, symmetric=True only trims along axis 0 (1-d and 2-d inputs); the documented guards, restated from the inputs, decide between Shanks value '
              'and fallback v2 exactly as documented; for all L,a,q in a 30-decade box on the Shanks branch |result-L|<=1e-250 '
              '(QF_NRA); IEEE totality (finite, non-negative abserr) bit-blasted in z3 FP: float32 with rescaled constants in the '
              'quick tier, float64 with the real constants and |e|<=1e100 in the thorough tier.',
@@ -163,7 +171,7 @@ CHECKS = {
              'parameters (k<=2, 3 thorough). Dea (real class): one __call__ from an arbitrary symbolic table for every control '
              'state (n, nres class), all comparison outcomes explored with z3 deciding feasibility; per path index safety, no '
              'exception, every divisor non-zero, abserr>=5*eps*|result|; EpsAlg guard threshold <= 1e-30; exhaustive search of the finite control graph gives "any length" for limexp in '
-             '{3,5,7} (odd <=21 thorough); first terms agree with dea3.',
+             '{3,5,7} (odd <=13 thorough); outside the guards the value after term m is the Shanks entry e_k(S_(m-2k)) of the last 2k+1 terms for ALL terms (real Dea on symbolic terms, control path of a rational shadow run; limexp 3, 5 (7 thorough), also after the table is full); first terms agree with dea3.',
         note='Trusted: z3; table contents arbitrary at every call (over-approximation of histories, sound for absence of '
              'violations); reciprocal of symbolic differences uninterpreted; abstract counterexamples are reported only when a '
              'sequence family realises them on the real class. Known finding (table overrun after convergence) listed.',
